@@ -118,6 +118,78 @@ def evalRange (p : Pending) (obsToks : List String) : String :=
     head ++ " | " ++ " ".intercalate (badOnes.map fun (t, m, _) => t ++ "=>" ++ showAcc m) ++ " | " ++
       " ".intercalate (badOnes.map fun (t, _, a) => t ++ "=>" ++ showAcc a)
 
+/-! language `route` -/
+
+def unhex16 (s : String) : QStr :=
+  let bs := unhex s
+  let rec go : Bytes → QStr
+    | a :: c :: rest => (UInt16.ofNat (a.toNat * 256 + c.toNat)) :: go rest
+    | _ => []
+  go bs
+
+structure NodeSpec where
+  id : Nat
+  parent : Int
+  pat : Nat
+  own : Bool
+
+structure RouteParse where
+  nodes  : List NodeSpec := []
+  redirs : List (Nat × Nat × QStr) := []     -- node, pattern, template (declaration order)
+  mws    : List (Nat × Nat × Bool) := []     -- node, id, verdict
+  raw    : Bytes := []
+  noroot : Bool := false
+
+def parseRouteToks (toks : List String) : RouteParse :=
+  toks.foldl (fun r t =>
+    match fields t with
+    | ["node", i, p, pat, own] => { r with nodes := r.nodes ++ [{ id := toNat i, parent := toInt p, pat := toNat pat, own := own == "1" }] }
+    | ["redir", n, pat, tm] => { r with redirs := r.redirs ++ [(toNat n, toNat pat, unhex16 tm)] }
+    | ["mw", n, i, ok] => { r with mws := r.mws ++ [(toNat n, toNat i, ok == "1")] }
+    | ["req", x] => { r with raw := unhex x }
+    | ["noroot"] => { r with noroot := true }
+    | _ => r) {}
+
+instance : Inhabited Node := ⟨Node.mk 0 [] [] Subs.nil false⟩
+
+partial def buildNode (r : RouteParse) (n : NodeSpec) : Node :=
+  let kids := r.nodes.filter fun c => c.parent == (n.id : Int)
+  let subs := kids.foldr (fun c acc => Subs.cons c.pat (buildNode r c) acc) Subs.nil
+  Node.mk n.id ((r.mws.filter (·.1 == n.id)).map fun e => (e.2.1, e.2.2))
+    ((r.redirs.filter (·.1 == n.id)).map fun e => (e.2.1, e.2.2)) subs n.own
+
+def matcherOf (o : Oracle) : Matcher := fun pat subject =>
+  (o.misc.findSome? fun f =>
+    match f with
+    | ["m", p, subj, idx, len, caps] =>
+      if toNat p == pat && unhex16 subj == subject then
+        some { idx := toNat idx, len := toNat len,
+               caps := if caps == "~" then [] else (caps.splitOn ",").map unhex16 }
+      else none
+    | _ => none)
+
+def evalRoute (p : Pending) (glob : Oracle) (obsToks : List String) : String :=
+  let r := parseRouteToks p.toks
+  let ora : Oracle := { urls := glob.urls ++ p.ora.urls, pages := glob.pages ++ p.ora.pages, misc := p.ora.misc }
+  let root := if r.noroot then none else (r.nodes.find? (·.parent == -1)).map (buildNode r)
+  let p16 := (ora.misc.findSome? fun f => match f with | ["p16", x] => some (unhex16 x) | _ => none).getD []
+  let sc : RouteScn := { root := root, matcher := matcherOf ora, raw := r.raw, p16 := p16 }
+  let env := ora.env
+  let mlog := (Scenario.run env sc.scenario).log
+  let ilog := (obsToks.filter (· != "end")).filterMap parseObs
+  let badTok := obsToks.filter (fun t => t != "end" && (parseObs t).isNone)
+  let keepR (o : Obs) : Bool := match o with | .del => false | .dc => false | .hp => false | _ => true
+  let pm := mergeW (mlog.filter keepR)
+  let pi := mergeW (ilog.filter keepR)
+  let hold (l : List Obs) : Bool := if p.prop == "C06" then C06.holds env sc l else C05.holds env sc l
+  let eq := pm == pi
+  let hm := hold mlog
+  let hi := hold ilog
+  let miss := containsMiss mlog || !badTok.isEmpty
+  let b (x : Bool) := if x then "1" else "0"
+  let head := s!"RES {p.prop} {p.id} eq={b eq} hm={b hm} hi={b hi} miss={b miss} crash={b (obsToks.contains "crash")}"
+  if eq && hi && hm && !miss then head else head ++ " | " ++ showLog pm ++ " | " ++ showLog pi
+
 partial def loop (h : IO.FS.Stream) (glob : Oracle) (cur : Pending) : IO Unit := do
   let line ← h.getLine
   if line.isEmpty then return ()
@@ -133,6 +205,7 @@ partial def loop (h : IO.FS.Stream) (glob : Oracle) (cur : Pending) : IO Unit :=
     let out := match cur.lang with
       | "sock" => evalSock cur glob rest
       | "range" => evalRange cur rest
+      | "route" => evalRoute cur glob rest
       | l => s!"RES {cur.prop} {cur.id} eq=0 hm=0 hi=0 miss=1 crash=0 | unknown language {l}"
     IO.println out
     loop h glob cur
